@@ -10,7 +10,9 @@ import (
 	"fmt"
 	"os"
 	"path/filepath"
+	"runtime"
 	"strings"
+	"sync"
 	"sync/atomic"
 	"testing"
 	"time"
@@ -39,6 +41,72 @@ type SCall struct {
 	pub   []klevdb.Message
 
 	panicked bool
+	gid      atomic.Int64 // goroutine running the call (windows: deadlock inspection)
+}
+
+// awaitCalls waits for done. It never gives a verdict on elapsed time: while waiting it looks at the goroutines of the
+// calls that have not returned, and only when ALL of them are parked in a mutex wait in one consistent snapshot (the
+// stack dump stops the world) - nobody left who could unlock anything - it reports a deadlock. A merely slow call is
+// runnable, running or in a system call and keeps the wait going.
+func awaitCalls(done <-chan struct{}, pending func() []*SCall, what func() string) {
+	for round := 0; ; round++ {
+		select {
+		case <-done:
+			return
+		case <-time.After(1500 * time.Millisecond):
+		}
+		ps := pending()
+		if len(ps) == 0 {
+			continue
+		}
+		states := goroutineStates()
+		all := true
+		desc := ""
+		for _, c := range ps {
+			st, ok := states[c.gid.Load()]
+			desc += fmt.Sprintf("\n    %s: goroutine %d [%s]", c.Kind, c.gid.Load(), st)
+			if !ok || !(strings.HasPrefix(st, "sync.Mutex.Lock") || strings.HasPrefix(st, "sync.RWMutex.RLock") || strings.HasPrefix(st, "sync.RWMutex.Lock") || strings.HasPrefix(st, "semacquire")) {
+				all = false
+			}
+		}
+		if all && round >= 1 {
+			deadlockSeen.Store(true)
+			panic(&Violation{Oracle: "deadlock", Msg: "every call that has not returned is waiting for a lock, nobody is left to release one:" + desc + "\n  " + what()})
+		}
+	}
+}
+
+// deadlockSeen: the log handle of the current case is wedged; cleanup must not call into it again.
+var deadlockSeen atomic.Bool
+
+// goroutineStates maps goroutine id to its wait state as printed in a full stack dump.
+func goroutineStates() map[int64]string {
+	buf := make([]byte, 1<<20)
+	for {
+		n := runtime.Stack(buf, true)
+		if n < len(buf) {
+			buf = buf[:n]
+			break
+		}
+		buf = make([]byte, 2*len(buf))
+	}
+	out := map[int64]string{}
+	for _, line := range strings.Split(string(buf), "\n") {
+		if !strings.HasPrefix(line, "goroutine ") {
+			continue
+		}
+		var id int64
+		rest := line[len("goroutine "):]
+		i := 0
+		for i < len(rest) && rest[i] >= '0' && rest[i] <= '9' {
+			id = id*10 + int64(rest[i]-'0')
+			i++
+		}
+		if a, b := strings.Index(rest, "["), strings.LastIndex(rest, "]"); a >= 0 && b > a {
+			out[id] = rest[a+1 : b]
+		}
+	}
+	return out
 }
 
 func (c *SCall) String() string {
@@ -398,6 +466,9 @@ func newWinEnv(c *WinCase) (*winEnv, error) {
 
 func (w *winEnv) cleanup() {
 	verifhook.SetPause(nil)
+	if deadlockSeen.Swap(false) {
+		return // Close would wait for the same locks; the wedged goroutines are abandoned
+	}
 	_ = w.l.Close()
 	_ = os.RemoveAll(w.dir)
 }
@@ -478,11 +549,41 @@ func (w *winEnv) window(st *Stats) bool {
 	}
 	adone := make(chan struct{})
 	a := c.A
+	var pmu sync.Mutex
+	finished := map[*SCall]bool{}
+	var started []*SCall
+	pending := func() []*SCall {
+		pmu.Lock()
+		defer pmu.Unlock()
+		var out []*SCall
+		for _, x := range started {
+			if !finished[x] {
+				out = append(out, x)
+			}
+		}
+		return out
+	}
+	markStart := func(x *SCall) {
+		x.gid.Store(goid())
+		pmu.Lock()
+		started = append(started, x)
+		pmu.Unlock()
+	}
+	markDone := func(x *SCall) {
+		pmu.Lock()
+		finished[x] = true
+		pmu.Unlock()
+	}
+	what := func() string {
+		return fmt.Sprintf("A = %s held at %s (occurrence %d, released=%v), calls inside: %v; state before: next=%d live=%v", a.Kind, c.Point, c.Hit+1, released, c.Bs, w.m.Next, w.m.Offsets())
+	}
 	go func() {
 		agid.Store(goid())
+		markStart(a)
 		a.inv = w.clk.Add(1)
 		a.run(w.l)
 		a.ret = w.clk.Add(1)
+		markDone(a)
 		close(adone)
 	}()
 	calls := []*SCall{a}
@@ -495,9 +596,11 @@ func (w *winEnv) window(st *Stats) bool {
 			calls = append(calls, b)
 			bd := make(chan struct{})
 			go func() {
+				markStart(b)
 				b.inv = w.clk.Add(1)
 				b.run(w.l)
 				b.ret = w.clk.Add(1)
+				markDone(b)
 				close(bd)
 			}()
 			if !released {
@@ -508,14 +611,14 @@ func (w *winEnv) window(st *Stats) bool {
 					// b waits for a lock A holds: let A go on (this only steers the schedule)
 					st.Inc("b_blocked_behind_a")
 					doRelease()
-					<-bd
+					awaitCalls(bd, pending, what)
 				}
 			} else {
-				<-bd
+				awaitCalls(bd, pending, what)
 			}
 		}
 		doRelease()
-		<-adone
+		awaitCalls(adone, pending, what)
 	case <-adone:
 		armed.Store(false)
 		// the point was not reached: run the Bs sequentially after A (still a valid, if plain, history)
